@@ -351,6 +351,9 @@ fn candidates(c: &Case) -> Vec<Case> {
             push(&|d| d.style.spell = 0);
         }
     }
+    if c.reader_style != 0 {
+        push(&|d| d.reader_style = 0);
+    }
     // scenario integers towards 0
     for i in 0..c.n.len() {
         if c.n[i] != 0 {
@@ -386,7 +389,7 @@ pub fn minimise(
                 return (cur, spent);
             }
             spent += 1;
-            let out = run(&cand, false);
+            let out = crate::runner::run_case(run, &cand, false);
             if out.violations.iter().any(|v| v.signature == signature) {
                 cur = cand;
                 improved = true;
